@@ -82,6 +82,17 @@ def make_cases(rng, tier, n):
                 stats["no_bytes_edit_" + kind] = stats.get("no_bytes_edit_" + kind, 0) + 1
                 cases.append(c)
                 continue
+        if not pipe and i % 12 == 7:
+            # several NAMES of one inode inside the tracked tree (cp -al, rsync --link-dest, ln), see checks/C01.py: a link-mode
+            # commit leaves every further name in place (rename onto a name of the same inode is a no-op); the repeated commands
+            # that follow must still be no-ops. No random draw is used here.
+            spec_ = "g:%d:%d" % (800 + i, (7, 300, 65537)[(i // 12) % 3])
+            for a_ in s1eval.artifacts(c):
+                if a_[1] == "d":
+                    c["init"] += [("file", a_[0] + b"/hl-first.bin", spec_), ("dir", a_[0] + b"/hl-sub"),
+                                  ("file", a_[0] + b"/hl-sub/hl-second.bin", spec_), ("file", a_[0] + b"/hl-third.bin", spec_)]
+            c["hardlinks"] = True
+            stats["hardlinked_names"] = stats.get("hardlinked_names", 0) + 1
         seq = []
         for _ in range(rng.randrange(1, 5)):
             k, s_ = rng.choice(CMDS)
